@@ -93,6 +93,20 @@ static std::vector<uint32_t> j1_set() {
 	return v;
 }
 
+// Production size only: lanes longer than 65536 blocks exist only there (seeded change agent9_C10: a 16-bit lane-start test in ONE implementation, hit by
+// about one key in 45). Many keys, the three implementations against each other (the reference implementation itself is compared with the model on the keys of
+// the main alphabet).
+static std::string sweep_case(int k) {
+	char key[32]; snprintf(key, sizeof key, "C10 sweep key %d", k);
+	static const int fl[3] = { RANDOMX_FLAG_DEFAULT, RANDOMX_FLAG_ARGON2_SSSE3, RANDOMX_FLAG_ARGON2_AVX2 }; randomx_cache* c[3];
+	for (int i = 0; i < 3; ++i) { c[i] = randomx_alloc_cache((randomx_flags)fl[i]); if (!c[i]) return "randomx_alloc_cache failed"; randomx_init_cache(c[i], key, strlen(key)); }
+	std::string d;
+	for (int i = 1; i < 3 && d.empty(); ++i) if (memcmp(randomx_get_cache_memory(c[0]), randomx_get_cache_memory(c[i]), randomx::CacheSize)) { const uint8_t* a = (const uint8_t*)randomx_get_cache_memory(c[0]); const uint8_t* b = (const uint8_t*)randomx_get_cache_memory(c[i]); size_t q = 0; while (a[q] == b[q]) ++q;
+		d = std::string("cache of key '") + key + "' built by the " + impl_name(i) + " implementation differs from the reference implementation's at block " + std::to_string(q / 1024); }
+	for (int i = 0; i < 3; ++i) randomx_release_cache(c[i]);
+	return d;
+}
+
 #ifndef RX_PROFILE
 #define RX_PROFILE "full"
 #endif
@@ -105,7 +119,8 @@ int main(int argc, char** argv) {
 	if (!args.replay.empty()) {
 		vf::Json r = vf::Json::load(args.replay); std::string d;
 		auto k = vf::unhex(r.at("key").s); std::string key((const char*)k.data(), k.size());
-		if (r.at("kind").s == "forced") { vf::Result R; d = forced_case((uint32_t)r.at("m").num(), (uint32_t)r.at("pass").num(), (uint32_t)r.at("slice").num(), (uint32_t)r.at("j1").num(), R); }
+		if (r.at("kind").s == "sweep") d = sweep_case((int)r.at("k").num());
+		else if (r.at("kind").s == "forced") { vf::Result R; d = forced_case((uint32_t)r.at("m").num(), (uint32_t)r.at("pass").num(), (uint32_t)r.at("slice").num(), (uint32_t)r.at("j1").num(), R); }
 		else if (r.at("kind").s == "reduced") d = reduced_case(key, (uint32_t)r.at("m").num(), (uint32_t)r.at("t").num(), (int)r.at("prefill").num());
 		else { auto k0 = vf::unhex(r.at("key1").s); d = api_case(std::string((const char*)k0.data(), k0.size()), key, (int)r.at("prefill").num(), P); }
 		printf("replay: %s\n", d.empty() ? "equals Argon2d" : d.c_str()); return d.empty() ? 0 : 1;
@@ -143,6 +158,20 @@ int main(int argc, char** argv) {
 		}
 		return R;
 	}, true, 3600);
+	if (!small) {
+		const int NK = th ? 512 : 128;
+		vf::Result rs = vf::run_shards(args, 16, [&](int shard) {
+			vf::Result R;
+			for (int k = shard; k < NK && R.viol.empty(); k += 16) {
+				vf::Json rp = vf::Json::obj().set("kind", "sweep").set("k", k).set("key", "").set("key1", "").set("m", 0).set("t", 0).set("prefill", 0);
+				vf::set_current(rp.dump());
+				std::string d = sweep_case(k); R.n["sweep_keys"]++; R.n["bytes_compared"] += 2ull * randomx::CacheSize;
+				if (!d.empty()) { vf::Violation v; v.key = "c10:sweep"; v.what = d; v.replay = rp; R.viol.push_back(v); }
+			}
+			return R;
+		}, true, 3600);
+		total.merge(rs);
+	}
 	if (small) {
 		// m = 4s with 3s-1 (area of the first block of a segment in passes > 0) or s-1 / 2s-1 (pass 0) divisible by a large power of two, plus ordinary sizes
 		std::vector<uint32_t> ms = { 44, 172, 684, 2732, 68, 260, 1028, 64, 1024 }; auto J = j1_set();
@@ -161,7 +190,7 @@ int main(int argc, char** argv) {
 	vf::Evidence ev; ev.level = "exploration";
 	ev.coverage.set("evaluations", (unsigned long long)(total.n["reduced_instances"] * 3 + total.n["api_caches"] + total.n["forced_segments"])).set("distinct_nontrivial", (unsigned long long)(total.n["reduced_instances"] + total.n["api_caches"] / 3))
 		.set("exhaustive", !total.incomplete)
-		.set("rule", std::string("profile ") + RX_PROFILE + ": reduced instances (memory blocks m in {8,12,..,64,128,1024} x passes 1..4 x key lengths 0..300, lanes 1) through randomx_argon2_initialize / fill_memory_blocks with each of the three fill implementations: every byte == RFC 9106 Argon2d model; public API at the profile's cache size: all bytes for each key x 3 implementations, and re-initialisation over every ordered key pair with 0x00/0xFF prefilled buffers; planted reference index: for 9 instance sizes (reference areas divisible by 2^5..2^11 among them) x 3 passes x 4 slices x a 133-value J1 set planted in the block the first block of the segment reads: the three implementations produce identical segments");
+		.set("rule", std::string("profile ") + RX_PROFILE + ": reduced instances (memory blocks m in {8,12,..,64,128,1024} x passes 1..4 x key lengths 0..300, lanes 1) through randomx_argon2_initialize / fill_memory_blocks with each of the three fill implementations: every byte == RFC 9106 Argon2d model; public API at the profile's cache size: all bytes for each key x 3 implementations, and re-initialisation over every ordered key pair with 0x00/0xFF prefilled buffers; production size: 128 (thorough 512) further keys, the three implementations against each other byte for byte; planted reference index: for 9 instance sizes (reference areas divisible by 2^5..2^11 among them) x 3 passes x 4 slices x a 133-value J1 set planted in the block the first block of the segment reads: the three implementations produce identical segments");
 	ev.assumptions = { "specmodel Argon2d validated against the RFC 9106 section 5.1 vector at setup; lanes > 1 is outside RandomX's configuration and not driven through the library" };
 	return vf::finish(args, total, ev, true, true);
 }
